@@ -7,15 +7,15 @@ use std::collections::HashMap;
 use vharness::cx::{Cx, Verdict, P};
 use vharness::leafx::LeafCtx;
 use vharness::mcx::*;
-use vharness::privx::{bump, dig};
+use vharness::privx::{bump, dig, ZFIRST, ZLAST, ZSUM};
 use vharness::wrapref::*;
 
 /// inner archetype index vector: [bh(4), asset(2), fee(2), number(2), slots(2), nulls(2), padding(2)]
-const SIZES: [usize; 7] = [8, 2, 2, 2, 2, 2, 2];
+const SIZES: [usize; 7] = [11, 2, 2, 2, 2, 2, 2];
 
 fn inner(ix: &[usize], n: usize, salt: u64) -> Inner {
     let b1 = dig(1);
-    let bhs = [Z4, b1, dig(2), bump(b1, 3), vharness::privx::shift(b1), bump(b1, 0), bump(b1, 1), bump(b1, 2)];
+    let bhs = [Z4, b1, dig(2), bump(b1, 3), vharness::privx::shift(b1), bump(b1, 0), bump(b1, 1), bump(b1, 2), ZSUM, ZLAST, ZFIRST];
     let mut pis = vec![2 * n as u64, [0u64, 1][ix[1]], [0u64, 7][ix[2]]];
     pis.extend_from_slice(&bhs[ix[0]]);
     pis.push([3u64, 4][ix[3]]);
@@ -45,13 +45,19 @@ fn main() {
     let c13 = Report::new("C13", "exploration", &tier);
     let leaf = LeafCtx::new();
     let mut all_ix: Vec<Vec<usize>> = Vec::new();
-    product_indices(&SIZES, |ix| all_ix.push(ix.to_vec()));
+    // the zero-like non-zero hashes (index >= 8) only with all-default / all-alternative tails
+    product_indices(&SIZES, |ix| {
+        let tail = ix[3] + ix[4] + ix[5] + ix[6];
+        if ix[0] < 8 || tail == 0 || tail == 4 {
+            all_ix.push(ix.to_vec())
+        }
+    });
     // reduced alphabet for M=3: every field value and every (bh, asset), (bh, fee) pair
     let red: Vec<Vec<usize>> = all_ix
         .iter()
         .filter(|ix| {
             let tail = ix[3] + ix[4] + ix[5] + ix[6];
-            tail == 0 || tail == 4 || (ix[1] + ix[2] == 0 && tail == 1 && ix[0] < 2)
+            (ix[0] < 8 && (tail == 0 || tail == 4)) || (ix[0] >= 8 && ix[1] + ix[2] == 0 && tail == 4) || (ix[1] + ix[2] == 0 && tail == 1 && ix[0] < 2)
         })
         .cloned()
         .collect();
@@ -177,8 +183,8 @@ fn main() {
         rep.eval(total);
         rep.extra("vector_sets", json!(sets));
         rep.extra("sampled_runs_8x8_16x1 (NOT part of the exhaustive counts)", json!(sampled));
-        rep.extra("inner_alphabet", json!({"block hash": "{0,B1,B2,B1 with limb 3 bumped}", "asset": "{0,1}", "fee": "{0,7}", "number": "{3,4}", "slots": "{all zero, non-zero sums+accounts (also on zero-hash inners)}", "nullifiers": "{distinct per inner, shared across inners}", "padding": "{0,9}", "addresses": "{0, A, all limbs p-1} rotating"}));
-        rep.rule("case = (address, M inner private-batch statements) assigned to the free inner public inputs of the circuit built by the real build_public_batch_constraints; full product of the 256-archetype inner alphabet for M<=2, of a 36-archetype sub-alphabet for M=3; oracles: acceptance == spec predicate and constant on classes that differ only in never-cross-checked fields (C13), output == forwarding with per-inner segment ownership (C12). distinct = distinct (address, inners)");
+        rep.extra("inner_alphabet", json!({"block hash": "{0,B1,B2,B1 with each limb bumped,B1 with limb0+1/limb1-1, non-zero hashes a careless zero test calls padding: [1,p-1,0,0] (limb sum 0), [0,0,0,5], [5,0,0,0]}", "asset": "{0,1}", "fee": "{0,7}", "number": "{3,4}", "slots": "{all zero, non-zero sums+accounts (also on zero-hash inners)}", "nullifiers": "{distinct per inner, shared across inners}", "padding": "{0,9}", "addresses": "{0, A, all limbs p-1} rotating"}));
+        rep.rule("case = (address, M inner private-batch statements) assigned to the free inner public inputs of the circuit built by the real build_public_batch_constraints; full product of the inner archetype alphabet for M<=2, of a sub-alphabet for M>=3 (sizes under vector_sets); oracles: acceptance == spec predicate and constant on classes that differ only in never-cross-checked fields (C13), output == forwarding with per-inner segment ownership (C12). distinct = distinct (address, inners)");
         rep.assume("the wrapper-only circuit uses zero_knowledge=false (production public-batch config is non-ZK anyway); inner statements are arbitrary vectors of the right length (a superset of what private batches can prove)");
     }
     std::process::exit(finish_all(&[&c12, &c13], Some(&prop)));
